@@ -220,6 +220,15 @@ struct Setup {
     scanner: bool,
     /// with a scanner, which source the stale library is older than: p(arser.c), s(canner.c), ps (both)
     stalekind: String,
+    /// distance in nanoseconds between the cached library's mtime and the sources that are newer
+    /// (stale) or older (fresh) than it; sub-second distances stay inside ONE wall-clock second
+    gap: u64,
+}
+
+/// 200 s, 999 ms, 1 ms, 1 ns
+const GAPS: [u64; 4] = [200_000_000_000, 999_000_000, 1_000_000, 1];
+fn parse_gap(m: &std::collections::HashMap<String, String>) -> u64 {
+    m.get("gap").and_then(|g| g.parse().ok()).unwrap_or(GAPS[0])
 }
 
 fn lib_path(work: &Path) -> PathBuf {
@@ -241,21 +250,25 @@ fn setup_case(work: &Path, st: &Setup, src: &Sources) {
     fs::create_dir_all(work.join("ctl")).unwrap();
     let sdir = work.join("src");
     write_headers(&sdir);
-    let now = SystemTime::now();
+    // all times are explicit: T is a whole second in the past; the library sits exactly at T
+    let now_s = SystemTime::now().duration_since(SystemTime::UNIX_EPOCH).unwrap().as_secs();
+    let t = SystemTime::UNIX_EPOCH + Duration::from_secs(now_s - 1000);
+    let gap = Duration::from_nanos(st.gap);
     let mut pc = src.parser_c[&(2, st.scanner)].clone();
     if st.broken {
         pc.push_str("\n#error \"c19: these sources do not compile\"\n");
     }
     // The current sources are parser.c v2 (+ scanner.c v2).  A stale library is older than parser.c,
-    // than scanner.c, or than both — and was built from version 1 of exactly those sources.
+    // than scanner.c, or than both — by `gap` — and was built from version 1 of exactly those sources;
+    // the other source is 400 s older than the library.  A fresh library is `gap` newer than every source.
     let sk = if st.scanner { st.stalekind.as_str() } else { "p" };
     let (old_p, old_s) = (sk.contains('p'), st.scanner && sk.contains('s'));
-    let age = |old: bool| now - Duration::from_secs(if old { 500 } else { 900 });
+    let age = |old: bool| if old { t + gap } else { t - Duration::from_secs(400) };
     fs::write(sdir.join("parser.c"), pc).unwrap();
-    set_mtime(&sdir.join("parser.c"), if st.lib == "stale" { age(old_p) } else { now - Duration::from_secs(500) });
+    set_mtime(&sdir.join("parser.c"), if st.lib == "stale" { age(old_p) } else { t - gap });
     if st.scanner {
         fs::write(sdir.join("scanner.c"), scanner_c(2)).unwrap();
-        set_mtime(&sdir.join("scanner.c"), if st.lib == "stale" { age(old_s) } else { now - Duration::from_secs(500) });
+        set_mtime(&sdir.join("scanner.c"), if st.lib == "stale" { age(old_s) } else { t - gap });
     }
     let sv2 = if st.scanner { 2 } else { 0 };
     match st.lib.as_str() {
@@ -263,11 +276,11 @@ fn setup_case(work: &Path, st: &Setup, src: &Sources) {
             let pv = if old_p { 1 } else { 2 };
             let sv = if !st.scanner { 0 } else if old_s { 1 } else { 2 };
             fs::copy(&src.prebuilt[&(pv, sv)], lib_path(work)).unwrap();
-            set_mtime(&lib_path(work), now - Duration::from_secs(700));
+            set_mtime(&lib_path(work), t);
         }
         "fresh" => {
             fs::copy(&src.prebuilt[&(2, sv2)], lib_path(work)).unwrap();
-            set_mtime(&lib_path(work), now - Duration::from_secs(100));
+            set_mtime(&lib_path(work), t);
         }
         _ => {}
     }
@@ -446,7 +459,7 @@ fn parse_sched(line: &str) -> Option<Sched> {
     let steps = m.get("steps").map(|s| s.split(',').filter(|x| !x.is_empty()).filter_map(|x| x.split_once(':')).map(|(p, a)| (p.parse().unwrap(), a.to_string())).collect()).unwrap_or_default();
     Some(Sched {
         id,
-        setup: Setup { lib: m.get("lib")?.clone(), lock: m.get("lock")? == "1", temp: m.get("temp")? == "1", broken: m.get("broken")? == "1", scanner: m.get("scanner").map(|s| s == "1").unwrap_or(false), stalekind: m.get("stalekind").cloned().unwrap_or_else(|| "p".into()) },
+        setup: Setup { lib: m.get("lib")?.clone(), lock: m.get("lock")? == "1", temp: m.get("temp")? == "1", broken: m.get("broken")? == "1", scanner: m.get("scanner").map(|s| s == "1").unwrap_or(false), stalekind: m.get("stalekind").cloned().unwrap_or_else(|| "p".into()), gap: parse_gap(&m) },
         n: m.get("n")?.parse().ok()?,
         k: m.get("K")?.parse().ok()?,
         steps,
@@ -592,7 +605,7 @@ struct Free {
 
 fn free_spec(f: &Free) -> String {
     format!(
-        "free {} lib={} lock={} temp={} broken={} scanner={} stalekind={} procs={} threads={} kill={} victim={} dolater={}",
+        "free {} lib={} lock={} temp={} broken={} scanner={} stalekind={} gap={} procs={} threads={} kill={} victim={} dolater={}",
         f.id,
         f.setup.lib,
         f.setup.lock as u8,
@@ -600,6 +613,7 @@ fn free_spec(f: &Free) -> String {
         f.setup.broken as u8,
         f.setup.scanner as u8,
         f.setup.stalekind,
+        f.setup.gap,
         f.procs,
         f.threads,
         f.kill_after_ms.map(|k| k.to_string()).unwrap_or_else(|| "-".into()),
@@ -617,7 +631,7 @@ fn parse_free(line: &str) -> Option<Free> {
     let m = kv(line);
     Some(Free {
         id,
-        setup: Setup { lib: m.get("lib")?.clone(), lock: m.get("lock")? == "1", temp: m.get("temp")? == "1", broken: m.get("broken")? == "1", scanner: m.get("scanner")? == "1", stalekind: m.get("stalekind").cloned().unwrap_or_else(|| "p".into()) },
+        setup: Setup { lib: m.get("lib")?.clone(), lock: m.get("lock")? == "1", temp: m.get("temp")? == "1", broken: m.get("broken")? == "1", scanner: m.get("scanner")? == "1", stalekind: m.get("stalekind").cloned().unwrap_or_else(|| "p".into()), gap: parse_gap(&m) },
         procs: m.get("procs")?.parse().ok()?,
         threads: m.get("threads")?.parse().ok()?,
         kill_after_ms: m.get("kill").and_then(|s| s.parse().ok()),
@@ -683,7 +697,7 @@ fn run_free(work: &Path, f: &Free, src: &Sources, hook: bool, patience: u64) -> 
 
 fn detect_hook(root: &Path, src: &Sources) -> bool {
     let work = root.join("hookprobe");
-    let st = Setup { lib: "fresh".into(), lock: false, temp: false, broken: false, scanner: false, stalekind: "p".into() };
+    let st = Setup { lib: "fresh".into(), lock: false, temp: false, broken: false, scanner: false, stalekind: "p".into(), gap: GAPS[0] };
     setup_case(&work, &st, src);
     let mut ctl = Ctl::new(&work);
     let mut ch = spawn_loader(&work, "L0", true, None);
@@ -800,7 +814,8 @@ fn main() {
                     s.setup.scanner = rng.chance(1, 2);
                     s.setup.stalekind = ["p", "s", "ps", "s"][rng.below(4)].to_string();
                     s.threads = !s.steps.iter().any(|(_, a)| a == "crash") && rng.chance(1, 3);
-                    s.raw = format!("{} scanner={} stalekind={} threads={}", s.raw, s.setup.scanner as u8, s.setup.stalekind, s.threads as u8);
+                    s.setup.gap = GAPS[scheds.len() % 4];
+                    s.raw = format!("{} scanner={} stalekind={} gap={} threads={}", s.raw, s.setup.scanner as u8, s.setup.stalekind, s.setup.gap, s.threads as u8);
                     scheds.push(s);
                 }
             }
@@ -819,7 +834,7 @@ fn main() {
             let later = hook || thorough || kill.is_none();
             frees.push(Free {
                 id: format!("f{k}"),
-                setup: Setup { lib, lock, temp: rng.chance(1, 4), broken, scanner: rng.chance(1, 2), stalekind: ["p", "s", "ps", "s"][rng.below(4)].to_string() },
+                setup: Setup { lib, lock, temp: rng.chance(1, 4), broken, scanner: rng.chance(1, 2), stalekind: ["p", "s", "ps", "s"][rng.below(4)].to_string(), gap: GAPS[(k / 3) % 4] },
                 procs,
                 threads,
                 kill_after_ms: kill,
